@@ -19,7 +19,7 @@ func init() {
 		Meta: report.Meta{
 			Property: "C10",
 			Rule: "stateless exploration of ALL interleavings (no preemption bound; with two commands: up to 2 (quick) / 4 (thorough) preemptions) of the real runner code (runner.go / command_storer.go rewritten so that every go statement, channel send, select and time.Sleep is a scheduling point of a cooperative scheduler; virtual clock) for scripts L0 <<c1 7 true>> <<set $k += 1>> L1 <<c2>> <<set $k += 1>> L2 with one or two commands; " +
-				"each command gets a handler shape from {raw AddCommand with a channel already holding nil / an error; raw with the channel completed later by a completer thread (send nil, send error, close; buffered, and unbuffered with the sender parked in its send until a poll takes the value); converted func(..), func(..) error (nil / error), func(..) <-chan error, func(..) chan error; built-in wait 0 / 0.5 / 1 / 1.5; unregistered name}, asynchronous handlers ungated or gated (a gate that only the host opens after p in 0..2 polls); " +
+				"each command gets a handler shape from {raw AddCommand with a channel already holding nil / an error; raw with the channel completed later by a completer thread (send nil, send error, close; buffered, and unbuffered with the sender parked in its send until a poll takes the value); converted func(..), func(..) error (nil / error), func(..) <-chan error, func(..) chan error; built-in wait 0 / 0.5 / 1 / 1.5 / 0.0009 / 1.0005; unregistered name}, asynchronous handlers ungated or gated (a gate that only the host opens after p in 0..2 polls); " +
 				"the host thread performs up to 8 Next calls and, for wait, advances the virtual clock by steps from {n/2, n/2-1ns, 1ns}; oracle per execution: no Next ever blocks (host stuck inside the API with no enabled thread), no panic; the results follow L0 W* [E]? L1(k=1) W* [E]? L2(k=2) end with W = ErrWaitingForCommandCompletion exactly while completion cannot have been reported, E exactly once iff the command reports an error, " +
 				"no W once completion has been reported and every other thread is quiet; every executed command statement invokes its handler exactly once with (7, true); wait n never completes at a virtual time below n seconds after it started; R: a pending (gated) command abandoned by RestoreAt and the same command statement executed again - the second execution must wait for its own handler; plus a free-running -race pass over the same shapes; " +
 				"a case is one complete schedule; non-trivial = schedule with at least one poll answered by ErrWaitingForCommandCompletion",
@@ -55,6 +55,8 @@ var c10Shapes = []c10Shape{
 	{name: "wait-0.5", async: true, wait: 0.5},
 	{name: "wait-1", async: true, wait: 1},
 	{name: "wait-1.5", async: true, wait: 1.5},
+	{name: "wait-0.0009", async: true, wait: 0.0009}, // not a whole number of milliseconds
+	{name: "wait-1.0005", async: true, wait: 1.0005},
 	{name: "unregistered", fails: true, unreg: true, wait: -1},
 	{name: "raw-unbuffered-later-nil", async: true, gatable: true, wait: -1},
 	{name: "raw-unbuffered-later-error", async: true, gatable: true, fails: true, wait: -1},
